@@ -173,11 +173,13 @@ pub fn record(rest: &[String]) -> anyhow::Result<()> {
         // end in any reasonable time, which is not what this check is about; strings are kept
         // (the result must be refused, not attempted).
         let huge = ["c_i31", "c_p31", "c_i63", "c_p64", "c_big", "c_inf"];
-        let seqs = ["c_l", "c_nest", "c_self", "c_t", "c_wrapd", "c_wrapl", "c_pairs"];
+        let seqs = ["c_l", "c_el", "c_nest", "c_self", "c_t", "c_et", "c_wrapd", "c_wrapl", "c_pairs"]; // (c_el does not stay empty: earlier calls append to it)
         for op in OPS2 {
             for a in &names {
                 for b in &names {
-                    let hog = (*op == "*" && ((huge.contains(a) && seqs.contains(b)) || (huge.contains(b) && seqs.contains(a))))
+                    // (the lists grow while the catalogue is used, so the million is left out for them too)
+                    let mill = |x: &str, y: &str| x == "c_mill" && seqs.contains(&y);
+                    let hog = (*op == "*" && ((huge.contains(a) && seqs.contains(b)) || (huge.contains(b) && seqs.contains(a)) || mill(a, b) || mill(b, a)))
                         || (*op == "<<" && huge.contains(b));
                     if !hog {
                         calls.push((format!("op:{}", op), vec![*a, *b], None));
